@@ -24,13 +24,18 @@ RULE = ('scenario = one mesh + one (trial, test) pair of bases + one integrand o
         'distinct = distinct (mesh kind, basis kinds, element pair, integrand); non-trivial = at least 2 cells or '
         'trial != test, integrand with a non-constant coefficient or rectangular element pair')
 
-BOUND = 2 ** 26
+BOUND = 2 ** 24
 
 # ------------------------------------------------------------------------------------------ exact tier: execution
 
 
 class Skip(Exception):
     """the recipe leaves the exact universe (not dyadic / too large for 32 bit): counted, not judged"""
+
+
+class Malformed(Exception):
+    """the library handed out an object that cannot be projected (wrong shape): an observation, judged by
+    NoUnexpectedError"""
 
 
 def _env(basis, Bpi, fields, attrs):
@@ -56,6 +61,8 @@ def _env(basis, Bpi, fields, attrs):
                 defaults = basis.default_parameters()
             fld = defaults[name]
             facc[name] = fem.accessors(fld, ('value',))
+            if tuple(np.asarray(fld).shape[-2:]) != tuple(shape):
+                raise Malformed(f'default parameter {name} has shape {np.asarray(fld).shape} on a basis with {shape}')
             pi = fem.field_pi(fld, facc[name], shape)
             if pi is None:
                 raise Skip(f'default {name} not dyadic')
@@ -164,6 +171,7 @@ def exec_exact(rec):
                     ok &= o
                     ev['alts'].append({'shape': [int(x) for x in A2.shape], 'trip': trip})
                 for (u, v), s in zip(rec.get('pairs', []), out['pairs']):
+                    fem.guard_sum([t[2] for t in ev['A']['trip']], max(map(abs, u), default=0) * max(map(abs, v), default=0))
                     si = _ints(_part(s, part), Sp)
                     ok &= si is not None
                     ev['pairs'].append({'u': [int(x) for x in u], 'v': [int(x) for x in v], 's': int(si or 0)})
@@ -205,6 +213,7 @@ def exec_exact(rec):
                 ok &= bi is not None
                 ev['alts'].append(bi or [])
             for v, s in zip(rec.get('lpairs', []), out['pairs']):
+                fem.guard_sum(ev['b'], max(map(abs, v), default=0))
                 si = _ints(s, S)
                 ok &= si is not None
                 ev['pairs'].append({'v': [int(x) for x in v], 's': int(si or 0)})
@@ -341,6 +350,9 @@ def gen_exact(rng, tier):
             k = int(rng.integers(1, min(len(fac), 5) + 1))
             bs['facets'] = [int(fac[j]) for j in rng.permutation(len(fac))[:k]]
         bs['side'] = 0
+        if 'facets' in bs and rng.integers(0, 3) == 0:
+            # oriented facet set: ori[k] tells which of the two cells of facet k is the owner (side 0)
+            bs['ori'] = [int(rng.integers(0, 2)) if which == 'interior' else 0 for _ in bs['facets']]
     nq = int(rng.integers(1, 4))
     bs['quad'] = fem.dyadic_quadrature(ref, nq, rng)
     elems = EXACT_ELEMS[kind]
@@ -399,7 +411,7 @@ def gen_exact(rng, tier):
     rec['lpairs'] = [_small_vec(rng, bv.N)]
     rec['interp_u'] = [{'re': _small_vec(rng, bu.N, -2, 3)}]
     rec['interp_v'] = [{'re': _small_vec(rng, bv.N, -2, 3), 'im': _small_vec(rng, bv.N, -2, 3)}] if rng.integers(0, 3) == 0 else []
-    tags = {'kind': kind, 'btype': btype, 'eu': fem.elem_name(eu), 'ev': fem.elem_name(ev), 'tier': 'exact',
+    tags = {'kind': kind, 'btype': btype, 'oriented': int('ori' in bs), 'eu': fem.elem_name(eu), 'ev': fem.elem_name(ev), 'tier': 'exact',
             'rect': int(eu != ev), 'grad': grad, 'complex': int('bil_im' in rec)}
     return rec, tags
 
@@ -451,6 +463,8 @@ def scenario(sid, rec, tags):
         events = execute(rec)
     except (Skip, fem.TooLarge):
         events = []
+    except Malformed as exc:
+        events = [{'a': 'Fun', 'err': 'Malformed: ' + str(exc)[:120]}]
     return {'id': sid, 'recipe': rec, 'tags': tags, 'events': events}
 
 
@@ -529,6 +543,9 @@ def run(ctx):
 
 def replay(ctx, doc):
     sc = doc['scenario']
+    if sc.get('recipe', {}).get('driver') == 'model':
+        ctx.model_must_hold('MC_C01', 'MC_C01.cfg', env={'MC_TIER': ctx.tier, 'MC_MUT': 'none'}, timeout=1800, workers=8)
+        return ctx.finish(rule=RULE)
     sc2 = scenario(sc['id'], sc['recipe'], sc.get('tags', {}))
     ctx.validate('TraceC01', [sc2])
     return ctx.finish(rule=RULE)
